@@ -8,6 +8,11 @@
 (*  "size": unit selection for a byte count written m*B^e + d.             *)
 (*  "time": the h/m/s split of a duration below 60 hours.                  *)
 (*  "pct" : the percentage as an exact fraction.                           *)
+(*  "avg":  the exponentially weighted average behind EwmaETA / EwmaSpeed  *)
+(*          with the default age (a first sample sets it, every later one  *)
+(*          moves it by 2/31 of the difference), as an exact fraction; it  *)
+(*          is an average: it lies between the smallest and the largest    *)
+(*          sample.                                                        *)
 (*  "median": the default moving average of the ETA decorator: a window of  *)
 (*          the last three samples; reading it does not change it.         *)
 (* TLC checks the invariants and prints one case per terminal state; the   *)
@@ -29,11 +34,12 @@ SizeCases == [base : {1000, 1024}, e : 0..5, m : {1, 2, 999}, d : {-1, 0, 1}]
 TimeCases == [h : {0, 1, 23, 59}, m : {0, 1, 59}, s : {0, 1, 59}, ms : {0, 999}]
 PctCases  == [total : {1, 3, 7, 100, 120}, cur : 0..8]
 (* an operation on the window: 0 reads it (a frame is drawn), v > 0 adds the sample v *)
+AvgCases == [durs : Seqs({1, 3, 5}, 4) \ {<<>>}]      \* seconds per item, one item per sample
 MedianCases == [ops : Seqs(MedianVals \cup {0}, MaxMedianOps) \ {<<>>}]
 
-Init == /\ kind \in {"ewma", "size", "time", "pct", "median"}
+Init == /\ kind \in {"ewma", "size", "time", "pct", "median", "avg"}
         /\ c \in (CASE kind = "ewma" -> EwmaCases [] kind = "size" -> SizeCases [] kind = "time" -> TimeCases
-                     [] kind = "median" -> MedianCases [] OTHER -> PctCases)
+                     [] kind = "median" -> MedianCases [] kind = "avg" -> AvgCases [] OTHER -> PctCases)
         /\ i = 1 /\ zDur = 0 /\ adds = <<>> /\ received = 0 /\ accounted = 0
         /\ win = <<0, 0, 0>> /\ outs = <<>>
 
@@ -60,6 +66,20 @@ MedianOp ==
      THEN outs' = Append(outs, Median3(win)) /\ UNCHANGED win
      ELSE win' = <<win[2], win[3], c.ops[i]>> /\ UNCHANGED outs
   /\ i' = i + 1 /\ UNCHANGED <<kind, c, zDur, adds, received, accounted>>
+
+(* github.com/VividCortex/ewma SimpleEWMA (what the decorators use for age 0, "the default"): value * 31^(k-1) after
+   k samples, so that the arithmetic stays in the integers *)
+RECURSIVE Pow31(_)
+Pow31(k) == IF k = 0 THEN 1 ELSE 31 * Pow31(k - 1)
+RECURSIVE AvgNum(_, _)
+AvgNum(d, k) == IF k = 1 THEN d[1] ELSE 2 * d[k] * Pow31(k - 2) + 29 * AvgNum(d, k - 1)
+AvgDen(k) == Pow31(k - 1)
+MinOf(d) == CHOOSE x \in {d[j] : j \in DOMAIN d} : \A y \in {d[j] : j \in DOMAIN d} : x <= y
+MaxOfD(d) == CHOOSE x \in {d[j] : j \in DOMAIN d} : \A y \in {d[j] : j \in DOMAIN d} : x >= y
+IsAnAverage == kind = "avg" =>
+  \A k \in 1..Len(c.durs) : LET p == SubSeq(c.durs, 1, k) IN
+     /\ AvgNum(c.durs, k) >= MinOf(p) * AvgDen(k)
+     /\ AvgNum(c.durs, k) <= MaxOfD(p) * AvgDen(k)
 
 Done == CASE kind = "ewma" -> i = Len(c.samples) + 1 [] kind = "median" -> i = Len(c.ops) + 1 [] OTHER -> TRUE
 Next == Update \/ MedianOp \/ (Done /\ UNCHANGED vars)
@@ -96,6 +116,7 @@ SplitOK == kind = "time" => /\ (Secs(c) \div 3600) % 60 = c.h
                             /\ Secs(c) % 60 = c.s
 
 EmitCase == Done => PrintT(<<"DECOR", ToJson([kind |-> kind, c |-> c, adds |-> adds, zDur |-> zDur, outs |-> outs,
+                                              avg |-> IF kind = "avg" THEN [k \in 1..Len(c.durs) |-> [num |-> AvgNum(c.durs, k), den |-> AvgDen(k)]] ELSE <<>>,
                                               unit |-> IF kind = "size" THEN SizeUnit(c) ELSE 0,
                                               indomain |-> IF kind = "size" THEN SizeInDomain(c) ELSE TRUE])>>)
 =============================================================================
